@@ -21,6 +21,7 @@ import (
 	"fmt"
 	"io"
 	"io/fs"
+	"net/url"
 	"os"
 	"strconv"
 	"strings"
@@ -255,10 +256,19 @@ func ParseObjectTags(t string) (map[string]string, error) {
 		if len(p) != 2 {
 			return nil, s3err.GetAPIError(s3err.ErrInvalidTag)
 		}
-		if len(p[0]) > 128 || len(p[1]) > 256 {
+		// the header value is URL encoded: "t=v%202" carries the value "v 2"
+		key, err := url.QueryUnescape(p[0])
+		if err != nil {
 			return nil, s3err.GetAPIError(s3err.ErrInvalidTag)
 		}
-		tagging[p[0]] = p[1]
+		value, err := url.QueryUnescape(p[1])
+		if err != nil {
+			return nil, s3err.GetAPIError(s3err.ErrInvalidTag)
+		}
+		if len(key) > 128 || len(value) > 256 {
+			return nil, s3err.GetAPIError(s3err.ErrInvalidTag)
+		}
+		tagging[key] = value
 	}
 
 	return tagging, nil
